@@ -258,7 +258,8 @@ pub fn gen_object(rng: &mut Rng, now: Ts, ca: usize, blocks: &[usize], n: usize,
             }
             prefixes.sort(); prefixes.dedup_by(|a, b| a.v4 == b.v4 && a.bits == b.bits && a.len == b.len);
             // The origin AS identifies the publishing CA (attribution).
-            (ObjKind::Roa { asn: block_as(ca).0 + rng.u32() % 100, prefixes }, "roa")
+            // offset 50 is reserved for the version markers of the history checks (see props/hist.rs)
+            (ObjKind::Roa { asn: block_as(ca).0 + { let o = rng.u32() % 99; if o >= 50 { o + 1 } else { o } }, prefixes }, "roa")
         }
         6 | 7 => {
             let customer = block_as(b).0 + rng.u32() % 100;
